@@ -62,6 +62,24 @@ pub fn noise_frames(run: &Run<'_>, p: usize) -> Vec<(String, Vec<u8>, bool)> {
         out.push(("announce-unacceptable-master".into(), rc::encode(&u.announce_msg(3)), false));
         out.push(("announce-unacceptable-master-again".into(), rc::encode(&u.announce_msg(4)), false));
     }
+    // every harness peer that this port's list does not contain (it may well be the parent
+    // selected through another port), with its usual and with conspicuously different contents
+    if let Some(list) = &run.cfg.node.ports[p].aml {
+        for (k, peer) in run.peers.iter().enumerate() {
+            if list.iter().any(|c| c.0 == peer.pid.clock) {
+                continue;
+            }
+            out.push((format!("announce-peer-not-on-this-ports-list-{k}"), rc::encode(&peer.announce_msg(peer.announce_seq)), false));
+            let mut forged = peer.clone();
+            forged.priority1 = 1;
+            forged.priority2 = 3;
+            forged.gm_identity = [0xee; 8];
+            forged.steps_removed = forged.steps_removed.wrapping_add(40);
+            forged.utc_offset = -5;
+            forged.flags = [0x02, 0x3f];
+            out.push((format!("announce-peer-not-on-this-ports-list-other-contents-{k}"), rc::encode(&forged.announce_msg(peer.announce_seq.wrapping_add(1))), false));
+        }
+    }
     // Sync / Follow_Up / Delay_Resp not from the selected parent
     for (k, peer) in run.peers.iter().enumerate() {
         let from_parent = is_slave && peer.pid == parent;
@@ -209,6 +227,10 @@ pub fn defs() -> Vec<WorldDef> {
         WorldDef { name: "1p-p2p-slave-seed", ports: vec![(true, false)], slave_only: false, seed: slave_seed.clone(), obedient: false, rich: false, depth: (3, 5) },
         WorldDef { name: "1p-e2e-aml", ports: vec![(false, false)], slave_only: false, seed: vec![], obedient: false, rich: false, depth: (4, 5) },
         WorldDef { name: "2p-bc-seed", ports: vec![(false, false), (false, false)], slave_only: false, seed: vec![Ev::Ann(0, 0), Ev::Ann(0, 0), Ev::T(1, Timer::Receipt), Ev::Bmca], obedient: true, rich: false, depth: (3, 4) },
+        // port 1 accepts only A, port 2 only B; port 1 is slave of A
+        WorldDef { name: "2p-bc-split-aml", ports: vec![(false, false), (false, false)], slave_only: false, seed: vec![Ev::Ann(0, 0), Ev::Ann(0, 0), Ev::Bmca], obedient: true, rich: false, depth: (3, 4) },
+        // peer 1 is port 2 of A's clock: slave of A.2 first, then A.1 takes over as parent
+        WorldDef { name: "1p-e2e-sibling-parent", ports: vec![(false, false)], slave_only: false, seed: vec![Ev::Ann(0, 1), Ev::Ann(0, 1), Ev::Bmca, Ev::Ann(0, 0), Ev::Ann(0, 0), Ev::Bmca], obedient: false, rich: true, depth: (3, 4) },
         WorldDef { name: "2p-e2e+p2p", ports: vec![(false, false), (true, false)], slave_only: false, seed: vec![], obedient: true, rich: false, depth: (3, 5) },
     ]
 }
@@ -216,6 +238,19 @@ pub fn defs() -> Vec<WorldDef> {
 pub fn systems(m: &NoiseMon) -> Vec<(WorldSys<'_, NoiseMon>, (usize, usize))> {
     let mut v = build("C07", m, defs(), false);
     for (s, _) in &mut v {
+        if s.name.contains("split-aml") {
+            let a = statime::config::ClockIdentity(s.cfg.peers[0].pid.clock);
+            let b = statime::config::ClockIdentity(s.cfg.peers[1].pid.clock);
+            s.cfg.node.ports[0].aml = Some(vec![a]);
+            s.cfg.node.ports[1].aml = Some(vec![b]);
+            continue;
+        }
+        if s.name.contains("sibling-parent") {
+            let mut sib = s.cfg.peers[0].clone();
+            sib.pid.port = sib.pid.port.wrapping_add(1);
+            s.cfg.peers[1] = sib;
+            continue;
+        }
         if s.name.contains("aml") {
             // acceptable master list: peers A, B and our own clock identity
             let list = vec![
@@ -239,7 +274,7 @@ pub fn run(tier: Tier) -> i32 {
     let depths: std::collections::HashMap<String, (usize, usize)> = built.iter().map(|(s, d)| (s.name.clone(), *d)).collect();
     let systems: Vec<_> = built.into_iter().map(|(s, _)| s).collect();
     explore_all(&mut rep, &systems, |s| tier.pick(depths[&s.name].0, depths[&s.name].1), tier.pick(12.0, 300.0));
-    rep.cover("noise_frame_classes", json!(30));
+    rep.cover("noise_frame_classes", json!(32));
     rep.assume("one-step unwinding on the complete canonical state (all private fields of every port and of the instance state, host timers, rng draw count) implies trace equivalence because the code is deterministic");
     rep.finish()
 }
